@@ -599,7 +599,8 @@ func newReplayer(root string, g *GroupSpec, fns interface{}, outDir string) (*re
 			if err != nil {
 				return nil, err
 			}
-			writeOv(dir, names[dir], filepath.Base(f), src)
+			base, src2 := SharedHarnessFile(f, src, names[dir])
+			writeOv(dir, names[dir], base, src2)
 			if dir == g.PkgDir {
 				for _, m := range reFn.FindAllStringSubmatch(string(src), -1) {
 					harnessNames = append(harnessNames, m[1])
@@ -656,14 +657,20 @@ func (r *replayer) replay(ob *Obligation, cexPath string) (bool, string) {
 	cmd.Env = append(cleanEnv(), "VERIF_CEX="+cexPath, "VERIF_HARNESS="+ob.Harness)
 	out, _ := cmd.CombinedOutput()
 	s := string(out)
-	if strings.Contains(s, "VERIF-ASSUME-FAIL") {
-		return false, s
-	}
-	if strings.HasPrefix(ob.Label, "no-uncaught-panic") {
-		return strings.Contains(s, "VERIF-PANIC "+ob.Harness), s
-	}
+	// the counterexample fixes only the variables of its own query: what happens after the failing assertion
+	// (later assumptions on other variables) is irrelevant, what happens before it is not
 	for _, line := range strings.Split(s, "\n") {
-		if strings.TrimSpace(line) == "VERIF-ASSERT-FAIL "+ob.Label {
+		line = strings.TrimSpace(line)
+		if strings.HasPrefix(line, "VERIF-ASSUME-FAIL") {
+			return false, s
+		}
+		if strings.HasPrefix(ob.Label, "no-uncaught-panic") {
+			if strings.HasPrefix(line, "VERIF-PANIC "+ob.Harness) {
+				return true, s
+			}
+			continue
+		}
+		if line == "VERIF-ASSERT-FAIL "+ob.Label {
 			return true, s
 		}
 	}
